@@ -204,6 +204,8 @@ def _is_zero_remainder(e: ast.AST, p: str) -> bool:
         if op != "==":
             return False
         lt, rt = unparse(l), unparse(r)
+        if lt in ("0", "1", "{'Q': 0}", "{'Q'}"):
+            lt, rt = rt, lt
         if (lt == "len(%s)" % p and rt == "1") or (rt == "len(%s)" % p and lt == "1"):
             one_key = True
         elif lt in ("%s.get('Q', 0)" % p, "%s['Q']" % p) and rt == "0":
